@@ -241,7 +241,10 @@ theorem commitTx_inv {e : Env} {pool : List Tx} (hp : PoolOk pool) (he : EnvOk e
       simp only [hit]
       have hnd : decide ((t.ins.map (·.op)).Nodup) = true := by simpa using hp.insNodup t ht
       have hnlt : ¬ x < sumOuts t := by omega
-      simp [hnd, hx, hnlt]
+      have hmaxs : ¬ x > MAX_SATOSHI := by
+        have := checkInputsAux_le_max _ _ _ _ _ _ hca (Nat.zero_le _)
+        omega
+      simp [hnd, hx, hnlt, hmaxs]
       refine ⟨?_, rfl⟩
       intro i hi
       rcases hlive i hi with ⟨en', hl'⟩
